@@ -41,6 +41,13 @@ for s in seeded:
             title = t; break
     title = meta.get('summary') or title
     res = 'caught' if s['exit'] == 1 else ('MISSED' if s['exit'] == 0 else f'exit {s["exit"]}')
+    if s['exit'] == 0:
+        if meta.get('caught_by_other_check'):
+            res = 'not by its own check; caught by ' + meta['caught_by_other_check']['check'] + ' (' + meta['caught_by_other_check']['clause'] + ')'
+        elif meta.get('not_judged'):
+            res = 'MISSED (deliberately not judged, see meta.json)'
+        elif meta.get('out_of_reach') or meta.get('out_of_budget'):
+            res = 'MISSED (out of reach, see meta.json)' 
     if meta.get('neutralised_by'):
         res = 'neutralised by fix ' + meta['neutralised_by'] + ' (no longer a break)'
     out.append(f'| {s["id"]} | {title[:110].replace("|", "/")} | {s["prop"]} | {res} | {clause(s["first"])} |')
